@@ -30,7 +30,8 @@ class C06(ConcBase):
 
     def project(self, line):
         p = line.split(" || ")
-        return (CR.strip_markers(p[0]) + " || " + re.sub(r" payloads=.*", "", p[2])) if len(p) == 3 else line
+        # (memory orderings weaker than AcqRel are marked ~Ordering in the trace: they are C07's business, not C06's)
+        return (re.sub(r"~\w+", "", CR.strip_markers(p[0])) + " || " + re.sub(r" payloads=.*", "", p[2])) if len(p) == 3 else line
 
     def spec(self, case, impl):
         return None
